@@ -505,7 +505,37 @@ def classify(f, ops):
     if "xsd-uri-without-hash" in (f.get("feats") or []):
         return "C02-F3"
     c = c01.classify(f, ops)
+    if c == "C01-F4" and ("ambiguous-name" in (f.get("feats") or []) or "empty-prefix-registered" in (f.get("feats") or [])):
+        # two bundle identifiers that print alike (the PROV-JSON finding C01-F4) in a document that also has a name whose
+        # printed form denotes another URI in its own container: in PROV-XML that is the C02-F1 situation — a bundle's
+        # prov:id, read in the bundle's scope, lands on the other bundle's URI
+        c = "C01-F1"
     return {"C01-F1": "C02-F1", "C01-F2": "C02-F2", "C01-F3": None}.get(c)
+
+
+def fixed_programs():
+    """names of a default namespace whose local part holds a colon (run:42): as identifiers, as reference targets and as
+    qualified-name values, at document level and in a bundle with a default namespace of its own, next to names
+    with a colon in the local part under a declared prefix"""
+    D1, D2, EXU = "http://default.test/", "http://d2.test/", "http://example.org/"
+    PROVU = "http://www.w3.org/ns/prov#"
+    out = []
+    for with_bundle in (False, True):
+        for declared_too in (False, True):
+            p = [["NewDoc"], ["SetDefault", ["d", "0"], D1], ["AddNs", ["d", "0"], "ex", EXU]]
+            c, D = ["d", "0"], D1
+            if with_bundle:
+                p += [["NewBundle", "0", ["S", "ex:b"]], ["SetDefault", ["b", "0", "0"], D2]]
+                c, D = ["b", "0", "0"], D2
+            p.append(["NewRecord", c, "Entity", ["Q", "", D, "run:42"], [[["S", "ex:k"], ["qn", "", D, "v:1"]]]])
+            p.append(["NewRecord", c, "Activity", ["Q", "", D, "a:b"], []])
+            p.append(["NewRecord", c, "Usage", ["Q", "", D, "u:1:2"],
+                      [[["Q", "prov", PROVU, "activity"], ["qn", "", D, "a:b"]], [["Q", "prov", PROVU, "entity"], ["qn", "", D, "run:42"]]]])
+            p.append(["NewRecord", c, "Entity", ["Q", "", D, "plain"], []])
+            if declared_too:
+                p.append(["NewRecord", c, "Entity", ["Q", "ex", EXU, "part:7"], [[["S", "ex:k"], ["qn", "ex", EXU, "w:2"]]]])
+            out.append(p)
+    return out
 
 
 def run(tier, seed, log, model_runs=True, enlarged=False):
@@ -516,7 +546,7 @@ def run(tier, seed, log, model_runs=True, enlarged=False):
                                    "force_types False and True, read back and compared by strict content (kind, identifier URI, "
                                    "attribute URI, value with Python kind / datatype / language / offset, multiplicity, bundle); "
                                    "non-trivial = >=2 record-creating calls",
-                         extra_cases=__import__('harness.progs', fromlist=['x']).scoping_programs(()) + __import__('harness.progs', fromlist=['x']).value_grid_programs(()) + __import__('harness.progs', fromlist=['x']).subtype_programs(()),
+                         extra_cases=__import__('harness.progs', fromlist=['x']).scoping_programs(()) + __import__('harness.progs', fromlist=['x']).value_grid_programs(()) + __import__('harness.progs', fromlist=['x']).subtype_programs(()) + fixed_programs(),
                          theorem_note="C02 value-level round trip (Xml.v)")
     if model_runs:
         n, bad = value_grid_correspondence()
